@@ -194,6 +194,38 @@ def build(tier="quick", seed=0):
         pack.add(Obligation(name, lambda tier, name=name, codec=codec, ext=ext: prove_paths(name, th_concurrent(codec, ext), lambda p: (p.value == ([[0, 1, 2], [10, 11, 12]], []), f"two {codec} streams in progress at once: read back {p.value[0]}, shared codec state: {p.value[1]}"), lambda m_, p: {}, allow_raise=None),
                             replay=lambda w, codec=codec, ext=ext: {"call": "c11_concurrent", "args": {"ext": ext}}, functions=FU, mode="two streams of one codec open at the same time, interleaved"))
 
+    # ------------------------------------------------------------------ clobber=False (refuse to overwrite) is about existing files only: the codec still follows the extension
+    for codec, ext in CODECS.items():
+        name = f"C11.clobber[{codec}: a new file written with clobber=False]"
+
+        def th(codec=codec, ext=ext):
+            fresh()
+            D = it.call(RD, ["c11/rec", [("varint", "n")]], {})
+            path = f"/abs/new.records{ext}"
+            w = it.call(base.g["RecordWriter"], [path], {"clobber": False})
+            it.call(it.getattr_(w, "write"), [it.call(D, [], {"n": 5})], {})
+            it.call(it.getattr_(w, "close"), [], {})
+            first = it.vfs[path].content()[:1] if path in it.vfs else None
+            try:
+                back = [it.unbase(o.attrs["n"]) for o in it.iterate(it.call(base.g["RecordReader"], [path], {}))]
+            except PyRaise as e:
+                back = f"raised {e.cls_name}"
+            try:
+                it.call(base.g["RecordWriter"], [path], {"clobber": False})
+                second = "opened"
+            except PyRaise as e:
+                second = "refused"
+            return first, back, second
+
+        def judge(p, codec=codec):
+            first, back, second = p.value
+            ckey = codec.split("(")[0]
+            magic_ok = (not (first and isinstance(first[0], MagicSeg))) if ckey == "none" else bool(first and isinstance(first[0], MagicSeg) and first[0].codec == ckey)
+            return magic_ok and back == [5] and second == "refused", f"clobber=False: the new file starts with {first!r}, reads back as {back!r}; writing onto the existing file is {second}"
+
+        pack.add(Obligation(name, lambda tier, name=name, th=th, judge=judge: prove_paths(name, th, judge, lambda m_, p: {}, allow_raise=("UnicodeEncodeError", "error")),
+                            replay=lambda w, codec=codec, ext=ext: {"call": "c11_clobber", "args": {"codec": codec.split("(")[0], "ext": ext}}, functions=FU, mode="every codec extension"))
+
     # ------------------------------------------------------------------ a '#' is a legal character of a file name
     def th_hash_name():
         fresh()
@@ -232,7 +264,9 @@ def build(tier="quick", seed=0):
 
     # ------------------------------------------------------------------ refusal
     JUNK = {"empty": b"", "html": b"<html><body>not records</body></html>", "zeros": b"\x00" * 64, "magic at offset 0 then junk": b"RECORDSTREAM\n" + b"\x01" * 40, "text mentioning the magic": b"see RECORDSTREAM\nin line 2 of this text file",
-            "magic after 30 bytes": b"\x00" * 30 + HEADER_FRAME, "truncated header": HEADER_FRAME[:10], "prefix of the gzip magic": b"\x1f", "record text": b"<c11/rec n=1 s='a'>\n"}
+            "magic after 30 bytes": b"\x00" * 30 + HEADER_FRAME, "truncated header": HEADER_FRAME[:10], "prefix of the gzip magic": b"\x1f", "record text": b"<c11/rec n=1 s='a'>\n",
+            "JSON lines": b'{"n": 1, "s": "a"}\n{"n": 2, "s": "b"}\n', "JSON lines of the JSON adapter": b'{"_type": "recorddescriptor", "_data": ["c11/rec", [["varint", "n"]]]}\n{"n": 1, "_type": "record", "_recorddescriptor": ["c11/rec", 1]}\n',
+            "CSV text": b"n,s\r\n1,a\r\n"}
     for label, data in JUNK.items():
         name = f"C11.refuse[{label}]"
 
